@@ -296,8 +296,152 @@ def rand_rhs(rng, A, quarters=False, cls=None):
     if cls == "sparse": return [rand_entry(rng, quarters, -6, 6) if rng.random() < 0.5 else Fraction(0) for _ in range(n)]
     return [rand_entry(rng, quarters, -9, 9) for _ in range(n)]
 
+def is_spd(A):
+    """exact: all pivots of the elimination without row exchanges are positive"""
+    n = len(A); M = [list(map(Fraction, r)) for r in A]
+    for c in range(n):
+        if M[c][c] <= 0: return False
+        for r in range(c + 1, n):
+            f = M[r][c] / M[c][c]
+            if f: M[r] = [a - f * x for a, x in zip(M[r], M[c])]
+    return True
+
+def orbit_system(rng):
+    """Exactly symmetric SPD system.  The parameters are partitioned into orbits of size 1, 2 or 3 (mirror pairs / exchangeable triples and
+    self-mirrored parameters), randomly embedded in 0..n-1; A and b are invariant under the symmetry, so the members of an orbit have equal
+    sub-solutions at every symmetric state of the solver and reach zero SIMULTANEOUSLY (several passive entries deleted in one
+    fix_constraint step).  `mirror`: pairs only, and the coupling of two pairs distinguishes i-j from i-j' (invariance under ONE involution
+    only: A = S + P S P).  Low-norm self-mirrored parameters strongly coupled to heavy pairs make the pairs leave when they enter.
+    b = A d0 + small symmetric perturbation with d0 >= 0 on the pairs: mixed-sign, noise-dominated right-hand sides included."""
+    mirror = rng.random() < 0.5
+    sizes = [rng.choice([2] if mirror else [2, 2, 2, 3]) for _ in range(rng.randint(1, 3))] + [1] * rng.randint(1, 2)
+    rng.shuffle(sizes)
+    orb = []
+    for k, g in enumerate(sizes): orb += [(k, t) for t in range(g)]
+    n = len(orb); K = len(sizes)
+    pos = list(range(n)); rng.shuffle(pos)
+    q = rng.random() < 0.3
+    def ent(lo, hi): return rand_entry(rng, q, lo, hi)
+    diag = [ent(1, 3) if sizes[k] == 1 else ent(4, 12) for k in range(K)]
+    within = [Fraction(0) if sizes[k] == 1 else ent(-2, 8) for k in range(K)]
+    cp = {}; cx = {}
+    for k in range(K):
+        for l in range(k + 1, K):
+            if sizes[k] == 1 or sizes[l] == 1: v = ent(1, 3) if rng.random() < 0.8 else ent(-2, 2)
+            else: v = ent(-1, 2)
+            cp[(k, l)] = v
+            cx[(k, l)] = ent(-1, 2) if (mirror and sizes[k] == 2 and sizes[l] == 2) else v
+    A = [[Fraction(0)] * n for _ in range(n)]
+    for i, (k, t) in enumerate(orb):
+        for j, (l, u) in enumerate(orb):
+            if i == j: v = diag[k]
+            elif k == l: v = within[k]
+            else:
+                kk, ll = (k, l) if k < l else (l, k)
+                v = cp[(kk, ll)] if (t == u or sizes[k] != sizes[l]) else cx[(kk, ll)]
+            A[pos[i]][pos[j]] = v
+    tries = 0
+    while not is_spd(A):
+        for i, (k, t) in enumerate(orb):
+            if sizes[k] > 1: A[pos[i]][pos[i]] += 1
+        tries += 1
+        if tries > 40: return None
+    dP = [Fraction(rng.randint(1, 3)) if sizes[k] > 1 and rng.random() < 0.8 else Fraction(0) for k in range(K)]
+    dv = [Fraction(0)] * n
+    for i, (k, t) in enumerate(orb): dv[pos[i]] = dP[k]
+    bo = []
+    for k in range(K):
+        i0 = pos[[i for i, (kk, t) in enumerate(orb) if kk == k][0]]
+        base = sum(A[i0][j] * dv[j] for j in range(n))
+        if sizes[k] > 1: bo.append((base + (ent(-1, 1) if rng.random() < 0.3 else 0)) if dP[k] else ent(-9, 3))
+        else: bo.append(ent(-9, 9) if rng.random() < 0.3 else base + ent(0, 6))
+    b = [Fraction(0)] * n
+    for i, (k, t) in enumerate(orb): b[pos[i]] = Fraction(bo[k])
+    return A, b
+
+def mirror_system(rng):
+    """A = S + P S P, b = c + P c for a random SPD S, a random involution P (mirror pairs + self-mirrored parameters) and a mixed-sign c;
+    with probability 1/3 two columns are exact duplicates up to the ridge term (A[i][:] = A[j][:] off the diagonal)"""
+    n = rng.choice([3, 4, 5, 5, 6, 7, 7, 8])
+    perm = list(range(n)); idx = list(range(n)); rng.shuffle(idx)
+    nfix = rng.choice([0, 1, 1, 2])
+    if (n - nfix) % 2: nfix += 1
+    rest = idx[min(nfix, n):]
+    for a_, b_ in zip(rest[0::2], rest[1::2]): perm[a_] = b_; perm[b_] = a_
+    q = rng.random() < 0.3
+    if rng.random() < 1 / 3:      # duplicate columns: Z has the same column at every mirror pair
+        m = rng.randint(2, n + 1)
+        Z = [[Fraction(0)] * n for _ in range(m)]
+        for j in range(n):
+            if perm[j] >= j:
+                col = [rand_entry(rng, q) for _ in range(m)]
+                for r in range(m): Z[r][j] = col[r]; Z[r][perm[j]] = col[r]
+        k = Fraction(rng.choice([1, 1, 2]), rng.choice([1, 2, 4]))
+        A = [[sum(Z[r][i] * Z[r][j] for r in range(m)) + (k if i == j else 0) for j in range(n)] for i in range(n)]
+    else:
+        S_ = rand_spd(rng, n, q, rng.choice(["gram", "corr", "corr", "corr", "band", "lap"]))
+        A = [[S_[i][j] + S_[perm[i]][perm[j]] for j in range(n)] for i in range(n)]
+    c = rand_rhs(rng, A, q, rng.choice(["noise", "noise", "noise", "zero", "sparse", "neg"]))
+    b = [c[i] + c[perm[i]] for i in range(n)]
+    return A, b
+
+def multi_delete_exact(A, b):
+    """does the exact mirror delete >= 2 passive entries in one fix_constraint step, with the cold or the production warm start?"""
+    n = len(b); tau = Fraction(EPS * n); hit = False
+    u = gauss(A, b)
+    for pinit in (None, [x > 0 for x in u]):
+        if pinit is not None and not any(pinit): continue
+        m = Mirror(); m.fnnls(A, b, tau, pinit)
+        hit = hit or m.n_multi > 0
+    return hit
+
+def sym_systems(rng, count):
+    """`count` symmetric systems, two thirds of them selected (by the exact mirror, not by the implementation) to delete several
+    passive entries in one step; the others are unselected members of both families"""
+    out = 0; tries = 0
+    want_multi = (2 * count) // 3
+    while out < want_multi and tries < 40 * count:
+        tries += 1
+        r = orbit_system(rng)
+        if r is None or not multi_delete_exact(*r): continue
+        out += 1; yield r
+    while out < count:
+        r = mirror_system(rng) if rng.random() < 0.6 else orbit_system(rng)
+        if r is None: continue
+        out += 1; yield r
+
+ORDERS = ["fm", "fmf", "ffm", "mfm", "fmm", "mf", "fmfm", "m"]     # f = non-mapper linear object (function list), m = mapper
+
 def gen_inputs(tier, rng):
     big = tier == "thorough"
+    # ---- the glue layer: every order of mappers / non-mapper objects with non-empty forced lists (mock objects, then Rectangular mappers)
+    for i in range(160 if big else 24):
+        yield gen_mock_order(rng, ORDERS[i % len(ORDERS)], i)
+    for i in range(32 if big else 5):
+        yield {"op": "real", "seed": rng.randrange(10 ** 9), "w_tilde": i % 3 == 2, "pos": True, "pinit": i % 2 == 0, "force": True,
+               "two": False, "mockreg": True, "order": ["fm", "fmf", "mfm", "ffm", "fmm"][i % 5], "edge_image": i % 4 != 3}
+    # ---- exactly symmetric / degenerate systems: ties in every decision, several passive entries deleted in one step
+    for i, (A, b) in enumerate(sym_systems(rng, 300 if big else 36)):
+        n = len(b); u = gauss(A, b)
+        warm = [bool(x > 0) for x in u]
+        starts = [{"kind": "none"}, {"kind": "mask", "mask": warm}]
+        if i % 3 == 0: starts.append({"kind": "mask", "mask": [True] * n})
+        elif i % 3 == 1: starts.append({"kind": "mask", "mask": [rng.random() < 0.6 for _ in range(n)]})
+        for st in starts:
+            yield {"op": "fnnls", "A": S(A), "b": Sv(b), "start": st, "sym": True}
+        if i % 3 == 2:
+            for uses_p in (True, False):
+                yield {"op": "posonly", "A": S(A), "b": Sv(b), "uses_p": uses_p, "sym": True}
+        if i % 3 == 0:       # the same system through the public entry point: one mapper with the identity mapping matrix on n image
+            # pixels, identity PSF, unit noise and regularization matrix A - I, data b: curvature_reg_matrix = A, data_vector = b
+            R = [[A[r][c] - (1 if r == c else 0) for c in range(n)] for r in range(n)]
+            I_ = [[Fraction(1 if r == c else 0) for c in range(n)] for r in range(n)]
+            yield {"op": "mock", "npix": n, "objs": [{"params": n, "mapper": True, "M": S(I_), "reg": S(R), "edge": []}], "data": Sv(b),
+                   "noise": Sv([1] * n), "order": "sym", "settings": {"pos": True, "pinit": i % 2 == 0, "force": False, "edge_image": False,
+                                                                    "source_zero": [], "via_config": i % 4 == 3, "check": True}}
+    for i in range(16 if big else 3):     # left-right symmetric data on an odd-width rectangular mesh, light regularization
+        yield {"op": "real", "seed": rng.randrange(10 ** 9), "w_tilde": i % 2 == 1, "pos": True, "pinit": i % 3 != 2, "force": False,
+               "two": False, "mockreg": False, "sym": True}
     # ---- the solver routine on arbitrary SPD systems
     for i in range(1600 if big else 110):
         n = rng.choice([1, 2, 2, 3, 3, 4, 4, 5, 5, 6, 7, 8]) if big else rng.choice([1, 2, 3, 3, 4, 4, 5, 6, 7])
@@ -384,6 +528,41 @@ def gen_mock_inversion(rng, i):
     if not st["edge_image"]: st["source_zero"] = []
     return {"op": "mock", "npix": npix, "objs": objs, "data": Sv(data), "noise": Sv(noise), "settings": st}
 
+def gen_mock_order(rng, order, i):
+    """aa.Inversion over mock objects in a prescribed order, positive-only solver with BOTH forced lists non-empty: every mapper has
+    edge pixels and receives a non-zero mapping from one of the image pixels in image_pixels_source_zero"""
+    npix = rng.randint(4, 7)
+    q = i % 4 == 0
+    source_zero = sorted(set(rng.randrange(npix) for _ in range(rng.randint(1, 2))))
+    edge_image = i % 5 != 4
+    objs = []
+    for ch in order:
+        mapper = ch == "m"
+        p = rng.randint(2, 4) if mapper else rng.randint(1, 3)
+        M = [[(rand_entry(rng, q, 0, 3) if rng.random() < 0.8 else rand_entry(rng, q, -2, -1)) if rng.random() < 0.65 else Fraction(0)
+              for _ in range(p)] for _ in range(npix)]
+        edge = []
+        if mapper:
+            edge = sorted(rng.sample(range(p), rng.randint(1, p - 1)))
+            free = [j for j in range(p) if j not in edge]
+            j0 = rng.choice(free)                       # a non-edge pixel fed by a source-zero image pixel: only the zero list forces it
+            M[rng.choice(source_zero)][j0] = Fraction(rng.randint(1, 3))
+            if len(free) > 1:                           # and one that nothing forces
+                j1 = rng.choice([j for j in free if j != j0])
+                for r in source_zero: M[r][j1] = Fraction(0)
+                M[rng.choice([r for r in range(npix) if r not in source_zero])][j1] = Fraction(rng.randint(1, 3))
+        R = rand_spd(rng, p, False, rng.choice(["lap", "band", "diag"])) if (mapper or rng.random() < 0.6) else None
+        objs.append({"params": p, "mapper": mapper, "M": S(M), "reg": S(R) if R is not None else None, "edge": edge})
+    cls = rng.choice(["pos", "pos", "noise", "noise", "zero"])
+    if cls == "pos": data = [Fraction(rng.randint(1, 6)) for _ in range(npix)]
+    elif cls == "zero":
+        data = [Fraction(rng.randint(-4, 4)) for _ in range(npix)]; data[-1] = -sum(data[:-1])
+    else: data = [rand_entry(rng, q, -6, 6) for _ in range(npix)]
+    noise = [Fraction(rng.choice([1, 1, 2, Fraction(1, 2)])) for _ in range(npix)] if rng.random() < 0.4 else [Fraction(1)] * npix
+    st = {"pos": True, "pinit": i % 2 == 0, "force": True, "edge_image": edge_image, "source_zero": source_zero if edge_image else [],
+          "via_config": i % 6 == 5, "check": True}
+    return {"op": "mock", "npix": npix, "objs": objs, "data": Sv(data), "noise": Sv(noise), "settings": st, "order": order}
+
 # --------------------------------------------------------------------------------------------- configuration overlays
 _CFG = {}
 _CFG_ROOT = None
@@ -422,6 +601,7 @@ def spec_only(coq, reason):
 
 TIE = "a solver decision lies within 1e-6 of a tie"
 ILL = "ill-conditioned system (cond > 1e5): 1e-9 comparison with the exact solve not meaningful"
+COST = "more than 10 free parameters with non-dyadic entries (Constant regularization adds 1e-8): exact rational run of the model too slow"
 def cond_of(A):
     if not A: return 1.0
     c = np.linalg.cond(np.array([[float(x) for x in r] for r in A]))
@@ -547,7 +727,11 @@ def inversion_rows(aa, inv, objs_desc, st, kind, nontrivial=True):
     kept = [i for i in range(n) if i not in forced]
     Ak = [[A[i][j] for j in kept] for i in kept]
     why = ILL if ill_conditioned(Ak if st["pos"] else A) else None       # (an exactly singular system has cond = inf: not "ill", see below)
-    if st["pos"]:
+    costly = st["pos"] and len(kept) > 10 and max([x.denominator for r in Ak for x in r] + [1]) > 2 ** 30
+    if costly:        # neither the exact mirror (margins) nor the model is run; a singular system is recognised by its condition number
+        if not np.isfinite(cond_of(Ak)): return skip_row(kind, "exact system singular (outside the SPD quantifier)")
+        why = why or COST
+    elif st["pos"]:
         mg = margin_pos_only(Ak, [b[i] for i in kept], st["pinit"])
         if mg is None: return skip_row(kind, "exact system singular (outside the SPD quantifier)")
         if mg < BAND and why is None: why = TIE
@@ -626,52 +810,73 @@ def run_mock(aa, inp):
         desc.append({"params": o["params"], "mapper": o["mapper"], "edge": list(o["edge"]), "Mq": M})
     settings = make_settings(aa, st, use_w_tilde=False)
     inv = aa.Inversion(dataset=ds, linear_obj_list=objs, settings=settings)
-    row = inversion_rows(aa, inv, desc, st, "mock")
+    row = inversion_rows(aa, inv, desc, st, "mock" + (":" + inp["order"] if inp.get("order") else ""))
     push_config(True, True, True)
     return row
 
 def run_real(aa, inp):
     rng = random.Random(inp["seed"])
+    sym = bool(inp.get("sym"))          # left-right mirror symmetric mask, data, noise map and PSF; odd-width mesh
     kh, kw = rng.choice([(3, 3), (3, 3), (1, 3), (3, 1), (1, 1)])
     H = rng.randint(kh + 3, 8); W = rng.randint(kw + 3, 8)
+    if inp.get("size"): H, W = inp["size"]
     m = np.ones((H, W), dtype=bool)
     for y in range(kh // 2 + 0, H - kh // 2):
         for x in range(kw // 2, W - kw // 2):
-            if 1 <= y < H - 1 and 1 <= x < W - 1 and rng.random() < 0.7: m[y, x] = False
+            if 1 <= y < H - 1 and 1 <= x < W - 1 and rng.random() < (0.85 if sym else 0.7): m[y, x] = False
     if m.all(): m[H // 2, W // 2] = False
-    mask = aa.Mask2D(mask=m, pixel_scales=1.0)
-    cls = rng.choice(["pos", "noise", "noise", "neg"])
+    cls = rng.choice(["pos", "noise", "noise", "neg"]) if not sym else "noise"
     vals = np.array([[rng.randint(-6, 6) if cls == "noise" else (rng.randint(0, 6) if cls == "pos" else -rng.randint(0, 6))
                       for _ in range(W)] for _ in range(H)], dtype=float)
     noise = np.array([[rng.choice([1.0, 1.0, 2.0, 0.5]) for _ in range(W)] for _ in range(H)])
     K = [[float(rng.randint(-1, 3)) for _ in range(kw)] for _ in range(kh)]
     K[kh // 2][kw // 2] = float(rng.randint(2, 4))
+    if inp.get("blur"): K = [[float(rng.randint(1, 3)) for _ in range(kw)] for _ in range(kh)]      # broad all-positive PSF: correlated columns
+    if sym:
+        m = m & m[:, ::-1]
+        vals = vals + vals[:, ::-1]; noise = np.maximum(noise, noise[:, ::-1])
+        K = [[K[r][c] + K[r][kw - 1 - c] for c in range(kw)] for r in range(kh)]
+    mask = aa.Mask2D(mask=m, pixel_scales=1.0)
     ds = aa.Imaging(data=aa.Array2D.no_mask(values=vals, pixel_scales=1.0), noise_map=aa.Array2D.no_mask(values=noise, pixel_scales=1.0),
                     psf=aa.Kernel2D.no_mask(values=K, pixel_scales=1.0, normalize=False), use_normalized_psf=False,
                     over_sampling=aa.OverSamplingDataset(pixelization=aa.OverSamplingUniform(sub_size=rng.choice([1, 2, 2]))))
     import io, contextlib, logging
     logging.disable(logging.CRITICAL)
     ds = ds.apply_mask(mask=mask)
-    st = {"pos": inp["pos"], "pinit": inp["pinit"], "force": inp["force"], "edge_image": False, "source_zero": [],
+    npix = int(np.sum(~m))
+    st = {"pos": inp["pos"], "pinit": inp["pinit"], "force": inp["force"], "edge_image": bool(inp.get("edge_image")), "source_zero": [],
           "via_config": False, "check": True}
-    mappers = []; desc = []
-    for t in range(2 if inp["two"] else 1):
-        shape = rng.choice([(3, 3), (4, 3), (3, 4), (4, 4)]) if inp.get("mockreg") else (3, 3)
+    if st["edge_image"]: st["source_zero"] = sorted(set(rng.randrange(npix) for _ in range(rng.randint(1, 2))))
+    order = inp.get("order") or ("mm" if inp["two"] else "m")
+    objs = []; mappers = []; desc = []
+    for ch in order:
+        if ch == "f":        # a non-mapper linear object (list of linear functions) with its own small regularisation matrix
+            p_ = rng.randint(1, 3)
+            Mf = [[Fraction(rng.randint(0, 2)) if rng.random() < 0.6 else Fraction(0) for _ in range(p_)] for _ in range(npix)]
+            Mf[rng.randrange(npix)][rng.randrange(p_)] = Fraction(1)
+            reg = aa.m.MockRegularization(regularization_matrix=flm(rand_spd(rng, p_, False, rng.choice(["diag", "band"]))))
+            objs.append(aa.m.MockLinearObjFuncList(parameters=p_, grid=aa.Grid2D.from_mask(mask=mask), mapping_matrix=flm(Mf), regularization=reg))
+            desc.append({"params": p_, "mapper": False, "edge": [], "Mq": Mf})
+            continue
+        if sym: shape = tuple(rng.choice(inp.get("shapes") or [(3, 3), (3, 3), (4, 3), (3, 5), (4, 5), (5, 3)]))
+        else: shape = rng.choice([(3, 3), (4, 3), (3, 4), (4, 4)] + ([(3, 5), (5, 3)] if inp.get("order") else [])) if inp.get("mockreg") else (3, 3)
         mesh = aa.mesh.Rectangular(shape=shape)
         os_ = ds.grids.pixelization.over_sampler
         mg = mesh.mapper_grids_from(mask=mask, border_relocator=None, source_plane_data_grid=os_.over_sampled_grid)
         if inp.get("mockreg"):     # integer regularisation matrix: the whole system stays small dyadic rationals (larger meshes affordable)
             p_ = shape[0] * shape[1]
             reg = aa.m.MockRegularization(regularization_matrix=flm(rand_spd(rng, p_, False, rng.choice(["lap", "band"]))))
+        elif sym: reg = aa.reg.Constant(coefficient=float(rng.choice(inp.get("coefs") or [0.25, 0.5, 0.5, 1.0])))      # light regularisation
         else: reg = aa.reg.Constant(coefficient=float(rng.choice([1, 2])))
         mapper = aa.Mapper(mapper_grids=mg, over_sampler=os_, regularization=reg)
-        mappers.append(mapper)
+        mappers.append(mapper); objs.append(mapper)
         desc.append({"params": int(mapper.params), "mapper": True, "edge": [int(e) for e in mapper.edge_pixel_list],
                      "Mq": [[frac(x) for x in r] for r in np.asarray(mapper.mapping_matrix, dtype=float)]})
     settings = make_settings(aa, st, use_w_tilde=inp["w_tilde"])
-    inv = aa.Inversion(dataset=ds, linear_obj_list=mappers, settings=settings)
+    inv = aa.Inversion(dataset=ds, linear_obj_list=objs, settings=settings)
     want = "InversionImagingWTilde" if inp["w_tilde"] else "InversionImagingMapping"
-    row = inversion_rows(aa, inv, desc, st, "real:" + ("wtilde" if inp["w_tilde"] else "mapping"))
+    row = inversion_rows(aa, inv, desc, st, "real:" + ("wtilde" if inp["w_tilde"] else "mapping") + (":sym" if sym else "")
+                         + (":" + inp["order"] if inp.get("order") else ""))
     # the loop over unique mappings (first stage of the w-tilde mapped data), for each mapper, on the reconstruction just obtained
     if row.get("coq"):
         try: srec = np.asarray(inv.reconstruction, dtype=float)
@@ -679,7 +884,8 @@ def run_real(aa, inp):
         if srec is not None:
             from autoarray.inversion.inversion import inversion_util
             off = 0
-            for mp in mappers:
+            for mp, o_ in zip(objs, desc):
+                if not o_["mapper"]: off += o_["params"]; continue
                 um = mp.unique_mappings
                 so = srec[off:off + int(mp.params)]; off += int(mp.params)
                 out = inversion_util.mapped_reconstructed_data_via_image_to_pix_unique_from(
